@@ -20,13 +20,15 @@ def run(ctx, prog, facts, tier):
     rules_text.check_side_letters(ctx, prog)
     rules_text.check_header(ctx, prog, PI)
     rules_text.check_parsed_board_consistent(ctx, prog, 'C15', full=(tier != 'quick'))
+    rules_text.check_print_parse_layout(ctx, prog, 'C15')
     rules_hash.check_parser_start_state(ctx, prog)
     ctx.floor('C15 parser panic site kinds (function, construct)', ctx.analysed.get('panic_site_kinds_parser', 0), 9)
     ctx.exhaustive = True
     ctx.assumptions += [
-        'NOT decided: character-position arithmetic of the diagram text itself (odd-index sampling of split segments); decided: '
-        'given the (row, column) the loops deliver, the character lands in bit 8*row + column only (C15.pb), and the header '
-        'language (C15.hdr)',
+        'the board part of the round trip is decided by composition: the printed letter of (type, owner) is recorded as that '
+        '(type, owner) (C15.pb c), the letter of square i is read into bit i only (C15.rt: the parser interpreted on the '
+        'printer\'s own output skeleton), the header is matched and captured (C15.hdr), side letters agree (C15.2); '
+        'NOT decided: equality of the re-printed text as a string (it follows from the above and determinism of Display)',
         'contract table: str::split yields at least one item; Regex::new of the constant pattern succeeds; capture groups not under '
         '?, * or | participate in every match; char::is_uppercase / to_string / fmt / anyhow do not panic',
         'loops over the input text are abstracted by havocking every location they modify (sound for any trip count)']
